@@ -289,6 +289,7 @@ class Server(object):
         self.log = []
         self.uploads = []     # (jid, node) every key upload as received
         self.upload_policy = "result"   # result | error | drop | stored_unanswered | held (what the next upload gets as answer)
+        self.held_key_results = []      # (jid, answer) of key requests answered under the "held" key_fetch_policy
         self.held_results = []          # (jid, iq id) of uploads stored under the "held" policy: confirmed later, by release_results()
         self.label_next_as_broadcast = False   # deliver the next one-to-one message as <message from="status@broadcast" participant=sender>
         self.key_fetch_policy = []       # answers to the next key-bundle requests: "result" (default once exhausted) | "error" | "drop"
@@ -361,7 +362,12 @@ class Server(object):
                     k["handed_out"].append(pk)
                     children.append(pk)
                 users.append(N("user", {"jid": u["jid"]}, children))
-            self.q(jid, N("iq", {"type": "result", "from": "s.whatsapp.net", "id": node["id"]}, [N("list", {}, users)]))
+            answer = N("iq", {"type": "result", "from": "s.whatsapp.net", "id": node["id"]}, [N("list", {}, users)])
+            if policy == "held":
+                # the answer is on its way (a slow link): it arrives when release_key_results() says so
+                self.held_key_results.append((jid, answer))
+                return
+            self.q(jid, answer)
         elif node.tag == "iq" and node["xmlns"] == "w:g2" and node["type"] == "get":
             g = node["to"]
             members = self.groups.get(g, [])
@@ -413,6 +419,13 @@ class Server(object):
                 self.q(target, N("receipt", attrs, list(node.getAllChildren())), kind="receipt")
         elif node.tag in ("ack", "presence", "iq"):
             pass
+
+    def release_key_results(self):
+        """the key-request answers held back so far are delivered, in order"""
+        held, self.held_key_results = self.held_key_results, []
+        for jid, answer in held:
+            self.q(jid, answer)
+        return held
 
     def release_results(self):
         """the confirmations held back so far are delivered (to connections that still exist), in order"""
